@@ -76,7 +76,14 @@ impl<R: RealNumberInternalTrait> PartialOrd for Number<R> {
     fn partial_cmp(&self, other: &Number<R>) -> Option<Ordering> {
         match upcast_oprands((*self, *other)) {
             NumberBinaryOperand::Integer(a, b) => a.partial_cmp(&b),
-            NumberBinaryOperand::Rational(a1, a2, b1, b2) => (a1 * b2).partial_cmp(&(b1 * a2)),
+            NumberBinaryOperand::Rational(a1, a2, b1, b2) => {
+                // cross-multiplying by denominators of opposite sign reverses the order
+                if (a2 < 0) == (b2 < 0) {
+                    (a1 * b2).partial_cmp(&(b1 * a2))
+                } else {
+                    (b1 * a2).partial_cmp(&(a1 * b2))
+                }
+            }
             NumberBinaryOperand::Real(a, b) => a.partial_cmp(&b),
         }
     }
